@@ -1006,12 +1006,13 @@ theorem pass_is_step {song : Song} {m : SAMap} {subId : Int} {s' : Song} {best :
       rw [← happ.1]
       exact hfr.setTrack hsrc _
 
-/-- a run of `Opt.optimize` (with the validator "every track validates") is a chain of steps
-through songs that validate -/
-theorem optimize_chain (minScore : Int) :
+/-- a run of `Opt.optimize` (with a validator that accepts only songs all of whose tracks
+validate) is a chain of steps through songs that validate -/
+theorem optimize_chain (valid : Song → Bool) (hvalid : ∀ s, valid s = true → validAll s = true)
+    (minScore : Int) :
     ∀ (fuel : Nat) (song : Song) (subId : Int) (acc : List Match) (r : OptResult),
     SongWF song → FreshInv song subId → validAll song = true →
-    optimize validAll minScore fuel song subId acc = .ok r → r.validated = true →
+    optimize valid minScore fuel song subId acc = .ok r → r.validated = true →
     subId + ((r.passes.length - acc.length : Nat) : Int) < 32768 →
     ∃ l, chainN song l ∧ lastSong song l = r.song ∧ (∀ T ∈ l, validAll T = true) ∧ SongWF r.song := by
   intro fuel
@@ -1019,7 +1020,7 @@ theorem optimize_chain (minScore : Int) :
   | zero => intro song subId acc r _ _ _ h; simp [optimize] at h
   | succ fuel ih =>
     intro song subId acc r hwf hfr hval h hv hcnt
-    obtain ⟨ps, hps⟩ := optimize_passes_prefix validAll minScore _ _ _ _ _ h
+    obtain ⟨ps, hps⟩ := optimize_passes_prefix valid minScore _ _ _ _ _ h
     unfold optimize at h
     obtain ⟨m, _, h⟩ := bind_ok h
     obtain ⟨x, hfb, h⟩ := bind_ok h
@@ -1029,11 +1030,11 @@ theorem optimize_chain (minScore : Int) :
     · simp only [pure, Except.pure, Except.ok.injEq] at h
       rw [← h] at hv; simp at hv
     · rename_i hvs
-      have hval' : validAll s' = true := by simpa using hvs
+      have hval' : validAll s' = true := hvalid s' (by simpa using hvs)
       -- at least this pass remains
       have hps1 : 1 ≤ ps.length := by
         split at h
-        · obtain ⟨ps', hps'⟩ := optimize_passes_prefix validAll minScore _ _ _ _ _ h
+        · obtain ⟨ps', hps'⟩ := optimize_passes_prefix valid minScore _ _ _ _ _ h
           have : acc ++ ps = acc ++ [best] ++ ps' := by rw [← hps, hps']
           have := congrArg List.length this
           simp only [List.length_append, List.length_cons, List.length_nil] at this
@@ -1069,20 +1070,23 @@ theorem optimize_chain (minScore : Int) :
 song (track list in id order without duplicates and ids below 32767, no explicit `END` event,
 `LOOP_BREAK`s without duration, tracks shorter than 32767 events) all of whose tracks validate,
 every threshold `minScore` and every fuel: if `Opt.optimize` — stack analysis, `find_best_match`,
-`apply_match` (loop folds and subroutine extractions), the validator "every track validates"
-after every pass — returns normally with `validated = true`, and the subroutine ids it hands out
+`apply_match` (loop folds and subroutine extractions), after every pass a validator `valid` that
+accepts only songs all of whose tracks validate (`hvalid`; for the `Song_Validator` of the real
+code this is `C04_validator_rejects`) — returns normally with `validated = true`, and the
+subroutine ids it hands out
 stay within `int16_t` (`hcnt`: at most one id per pass; defect D3's neighbourhood), then every
 original track still validates in the optimised song and is observed the same: what is played
 with durations, total length, loop-point time. -/
-theorem C01_optimize_preserves (song : Song) (minScore : Int) (fuel : Nat) (r : OptResult)
+theorem C01_optimize_preserves (valid : Song → Bool) (hvalid : ∀ s, valid s = true → validAll s = true)
+    (song : Song) (minScore : Int) (fuel : Nat) (r : OptResult)
     (hwf : SongWF song) (hsorted : (song.tracks.map (·.1)).Pairwise (· < ·))
     (hids : ∀ p ∈ song.tracks, p.1 < 32767)
     (hok : ∀ id, song.track? id ≠ none → okTrack song id)
-    (hr : optimize validAll minScore fuel song (initialSubId song) [] = .ok r) (hv : r.validated = true)
+    (hr : optimize valid minScore fuel song (initialSubId song) [] = .ok r) (hv : r.validated = true)
     (hcnt : initialSubId song + (r.passes.length : Int) < 32768)
     (id : Nat) (hid : song.track? id ≠ none) :
     okTrack r.song id ∧ obsOf r.song id = obsOf song id := by
-  obtain ⟨l, hc, hlast, hall, _⟩ := optimize_chain minScore fuel song _ [] r hwf
+  obtain ⟨l, hc, hlast, hall, _⟩ := optimize_chain valid hvalid minScore fuel song _ [] r hwf
     (initialSubId_fresh hsorted hids) (validAll_of_ok hwf.nodup hok) hr hv (by simpa using hcnt)
   rw [← hlast]
   exact C01_passesN_preserve_nodepth song l hc id (hok id hid)
@@ -1234,7 +1238,7 @@ example : ∃ S', applyMatch songL mL bmL 15000 = .ok (S', mL, 15000) ∧ StepN 
 example (r : OptResult) (hr : optimize validAll 0 5 songL (initialSubId songL) [] = .ok r)
     (hv : r.validated = true) (hcnt : initialSubId songL + (r.passes.length : Int) < 32768) :
     okTrack r.song 0 ∧ obsOf r.song 0 = obsOf songL 0 :=
-  C01_optimize_preserves songL 0 5 r wfL (by decide) (by decide)
+  C01_optimize_preserves validAll (fun _ h => h) songL 0 5 r wfL (by decide) (by decide)
     (fun id hid => by
       have : id = 0 := by
         by_cases h : id = 0
